@@ -198,19 +198,33 @@ def mutate(rng, text):
     if m == "sign_flip":
         t2, n = re.subn(r"(?<![\w.])(\d)", r"-\1", text, count=1)
         return m, t2
-    if m == "nest_parens":
-        d = rng.choice([10, 100, 1000, 20000])
-        return m + f"_{d}", f"QUERY ev WHERE " + "(" * d + "a = 1" + ")" * d
-    if m == "nest_not":
-        d = rng.choice([10, 100, 1000, 20000])
-        return m + f"_{d}", "QUERY ev WHERE " + "NOT " * d + "a = 1"
+    if m in ("nest_parens", "nest_not"):
+        d = rng.choice([10, 100, 1000, 20000, 100000])
+        nest = ("(" * d + "a = 1" + ")" * d) if m == "nest_parens" else ("NOT " * d + "a = 1")
+        # lexical context in front of the nest: literals that a pre-scan and the grammar may delimit differently
+        lit = rng.choice([None, None, '"x"', '"x\\"', '"x\\\\"', '"a\\"b"', '"(("', '"NOT NOT ("', "'x'", "'x\\'", '"é("', '""'])
+        if lit is None:
+            return m + f"_{d}", "QUERY ev WHERE " + nest
+        form = rng.choice(["where_and", "where_or", "for", "since"])
+        if form == "where_and":
+            t = f"QUERY ev WHERE s = {lit} AND {nest}"
+        elif form == "where_or":
+            t = f"QUERY ev WHERE s != {lit} OR {nest}"
+        elif form == "for":
+            t = f"QUERY ev FOR {lit} WHERE {nest}"
+        else:
+            t = f"QUERY ev SINCE {lit} WHERE {nest}"
+        return m + f"_{d}_after_literal", t
     if m == "unterminated_string":
         return m, text + ' WHERE s = "unterminated'
     if m == "unterminated_json":
         return m, 'STORE ev FOR c1 PAYLOAD {"k": 1, "s": {"a": ['
     if m == "deep_json":
-        d = rng.choice([10, 1000, 50000])
-        return m + f"_{d}", 'STORE ev FOR c1 PAYLOAD {"k":' + "[" * d + "]" * d + "}"
+        d = rng.choice([10, 1000, 50000, 200000])
+        pre = rng.choice(['', '', '"s":"x",', '"s":"x\\\\",', '"s":"a\\"b",', '"s":"[[{{",', '"s":"\\\\\\"",'])
+        br = rng.choice(["[]", "[]", "{}"])
+        body = (br[0] * d + br[1] * d) if br == "[]" else ('{"a":' * d + "1" + "}" * d)
+        return m + f"_{d}" + ("_after_literal" if pre else ""), 'STORE ev FOR c1 PAYLOAD {' + pre + '"k":' + body + "}"
     if m == "non_ascii":
         pos = rng.randint(0, len(text))
         return m, text[:pos] + rng.choice(["é", "日本", "🚀", "​", "\u0000", "﻿"]) + text[pos:]
